@@ -31,13 +31,13 @@ import "github.com/dcaiafa/lox/internal/base/set"
 // First(D), and '+' by First('+'). Finally ε is in the final result only
 // because First(D) includes it.
 func First(g *Grammar, syms []Term) set.Set[*Terminal] {
-	visited := new(set.Set[Term])
+	ruleFirst := ruleFirstSets(g)
 	if len(syms) == 1 {
-		return first(g, visited, syms[0])
+		return first(ruleFirst, syms[0])
 	}
 	var firstSet set.Set[*Terminal]
 	for _, sym := range syms {
-		partialFirst := first(g, visited, sym)
+		partialFirst := first(ruleFirst, sym)
 		firstSet.AddSet(partialFirst)
 
 		// If sym[i] includes ε, include FIRST(sym[i+1]) in FIRST(syms).
@@ -50,45 +50,58 @@ func First(g *Grammar, syms []Term) set.Set[*Terminal] {
 	return firstSet
 }
 
-func first(g *Grammar, visited *set.Set[Term], s Term) set.Set[*Terminal] {
+func first(ruleFirst map[*Rule]*set.Set[*Terminal], s Term) set.Set[*Terminal] {
 	if terminal, ok := s.(*Terminal); ok {
 		return set.New[*Terminal](terminal)
 	}
+	var firstSet set.Set[*Terminal]
+	firstSet.AddSet(*ruleFirst[s.(*Rule)])
+	return firstSet
+}
 
-	// Productions can contain recursion.
-	// E.g.: xs = xs x | x
-	if visited.Has(s) {
-		return set.Set[*Terminal]{}
+// ruleFirstSets computes FIRST for every Rule in the grammar. Productions can
+// contain recursion (E.g.: xs = xs x | ε) and a Rule can be referenced many
+// times, so the sets are grown together until nothing changes (a fixed point)
+// instead of recursing into each Rule once. The result is cached in the
+// Grammar until the next time it is modified.
+func ruleFirstSets(g *Grammar) map[*Rule]*set.Set[*Terminal] {
+	if g.ruleFirst != nil {
+		return g.ruleFirst
 	}
-	visited.Add(s)
 
-	rule := s.(*Rule)
-	firstSet := set.Set[*Terminal]{}
-	for _, prod := range rule.Prods {
-		if len(prod.Terms) == 0 {
-			firstSet.Add(Epsilon)
-			continue
-		}
+	ruleFirst := make(map[*Rule]*set.Set[*Terminal], len(g.Rules))
+	for _, rule := range g.Rules {
+		ruleFirst[rule] = new(set.Set[*Terminal])
+	}
 
-		addEpsilon := true
-		for _, term := range prod.Terms {
-			termFirst := first(g, visited, term)
-			hasEpsilon := false
-			termFirst.ForEach(func(s *Terminal) {
-				if s == Epsilon {
-					hasEpsilon = true
-					return
+	for changed := true; changed; {
+		changed = false
+		for _, rule := range g.Rules {
+			firstSet := ruleFirst[rule]
+			for _, prod := range rule.Prods {
+				addEpsilon := true
+				for _, term := range prod.Terms {
+					hasEpsilon := false
+					termFirst := first(ruleFirst, term)
+					termFirst.ForEach(func(s *Terminal) {
+						if s == Epsilon {
+							hasEpsilon = true
+							return
+						}
+						changed = firstSet.Add(s) || changed
+					})
+					if !hasEpsilon {
+						addEpsilon = false
+						break
+					}
 				}
-				firstSet.Add(s)
-			})
-			if !hasEpsilon {
-				addEpsilon = false
-				break
+				if addEpsilon {
+					changed = firstSet.Add(Epsilon) || changed
+				}
 			}
 		}
-		if addEpsilon {
-			firstSet.Add(Epsilon)
-		}
 	}
-	return firstSet
+
+	g.ruleFirst = ruleFirst
+	return ruleFirst
 }
